@@ -52,7 +52,7 @@ def stream_plan(ctx, built, ncases, name="S-plan"):
         n = R.choice([1, 2, 4, 5, 5, 6, 7, 8, 9, 10, 12])
         style, m = gen_matrix(R, n)
         ent = np.array([R.choice([0.0, 0.5, 1.0, 2.0, 3.3, 7.0, 14.0, 40.0, R.random() * 10]) for _ in range(n)])
-        main = R.choice([None, None, 0, n - 1, R.randrange(n)])
+        main = R.choice([None, None, 0, 0, n - 1, R.randrange(n)])
         maxw = R.choice([2.0, 5.0, 8.0, 15.0, 15.0, 30.0]); th = R.choice([0.0, 0.05, 0.1, 0.1, 0.3, 0.5]); alpha = R.choice([1e-2, 5e-2, 0.2]) if ctx.tier == 'thorough' else R.choice([5e-2, 0.2, 0.2, 1.0])
         tpc = [sum(m[i, j] for j in range(n) if i != j) for i in range(n)]
         rng = TS.RecRandom(ci)
